@@ -256,6 +256,21 @@ func famC01(e *emitter, g *gen.G, thorough bool) {
 			e.emit(fmt.Sprintf("pad%d/Scalars", pad), zoo.Scalars{S: g.String(pad, 0), I64: ls[0], F64: fs[0], T: ts[0], U64: uint64(ls[1])})
 		}
 	}
+	// the same map / list / object twice in the interface slots of a list longer than the decoder's
+	// preallocation (1024), of a map field and of a map behind an interface
+	{
+		m1 := map[string]int32{"a": 1}
+		l1 := []int32{4, 5}
+		o1 := &zoo.Small{Name: "o"}
+		big := make([]interface{}, 1100)
+		for i := range big {
+			big[i] = int32(i)
+		}
+		big[0], big[1], big[2], big[1050], big[1060], big[1070] = m1, l1, o1, m1, l1, o1
+		e.emit("refs/biglist", big)
+		e.emit("refs/mapfield", zoo.BadInMap{M: map[string]interface{}{"x": m1, "y": m1, "l": l1, "l2": l1, "o": o1, "o2": o1}})
+		e.emit("refs/listfield", zoo.BadInList{L: []interface{}{m1, m1, l1, l1, o1, o1}})
+	}
 	// code points that code tends to treat specially, in every string position
 	for i, r := range []rune{0xfffd, 0xfeff, 0, 0x7f, 0x85, 0xd7ff, 0xe000, 0xfffe, 0xffff, 0x10ffff} {
 		c := string(r)
